@@ -175,6 +175,7 @@ def _open_kind(mode, flags):
 
 
 _MUTATING = {
+    "write",
     "open-w",
     "open-a",
     "remove",
@@ -448,6 +449,13 @@ class _WriteProxy:
         if S.armed and not S.busy:
             S.busy = True
             try:
+                if what == "write":
+                    # one log entry per (operation, file): a write through a handle that was
+                    # opened earlier (no open event) is still a modification by THIS operation
+                    key = (S.cur_op, self._shown)
+                    if key not in S.write_logged:
+                        S.write_logged.add(key)
+                        S.log.append(["fs", "write", self._pclass, self._shown, None])
                 fault = _hit("fs/%s/%s" % (what, self._pclass))
                 if fault is not None:
                     _enact_fs(fault, what, self._pclass, self._shown)
@@ -857,6 +865,7 @@ def _child(request, root):
     S.last_copy, S.outside_reads, S.stdin_reads, S.in_parse = {}, 0, 0, 0
     S.api, S.plugins_seen, S.impl = None, [], {}
     S.xdev_hits = 0
+    S.write_logged = set()
     _write_tree(request)
     os.chdir(S.work)
     _install_world(request.get("world") or {})
